@@ -633,6 +633,37 @@ Proof.
   - intros k Hfr Hk. cbn [step sts set_sts]. rewrite Hk. cbn [ph set_sts]. rewrite Hfr. eexists. repeat split.
 Qed.
 
+(* a handler that hijacked its TCP connection returns: the only thing the
+   server still does with that connection is to deregister it (WFinish: delete
+   from srv.conns, wg.Done); it never closes it and never reads from it again *)
+Lemma keeps_id_set_pc p : keeps_id (set_pc p).
+Proof. intros w. reflexivity. Qed.
+
+Lemma hijack_exit_releases s s' c :
+  step s (HExitHj c) = Some s' ->
+  md s = TCP /\
+  (exists w, find_w c (workers s) = Some w /\ w_pc w = CHandler) /\
+  (exists w', find_w c (workers s') = Some w' /\ w_pc w' = CFin) /\
+  step s' (WClose c) = None /\ step s' (WCheck c) = None /\ step s' (WSetDl c) = None /\
+  step s' (Req c) = None /\ step s' (ReadErr c) = None /\ step s' (HEnter c) = None /\
+  exists s'', step s' (WFinish c) = Some s'' /\ wg s'' = pred (wg s') /\
+              exists w'', find_w c (workers s'') = Some w'' /\ w_pc w'' = CDone.
+Proof.
+  intros H. cbn [step] in H. destruct (md s) eqn:Em; [|discriminate].
+  apply wstep_inv in H. destruct H as (w & Hf & Hpc & _ & Hs & _). subst s'.
+  pose proof (upd_w_find_same c (set_pc CFin) _ w (keeps_id_set_pc CFin) Hf) as Hf'.
+  split; [reflexivity|]. split; [eauto|]. split; [eexists; split; [exact Hf'|reflexivity]|].
+  assert (Hno : forall from g f, from <> CFin ->
+            wstep (set_workers s (upd_w c (set_pc CFin) (workers s))) c from g f = None).
+  { intros from g f Hn. unfold wstep. cbn [workers set_workers]. rewrite Hf'. cbn. destruct from; congruence. }
+  repeat split; try (cbn [step]; apply Hno; discriminate).
+  cbn [step].
+  rewrite (wstep_some _ c CFin (fun _ => true) (set_pc CDone) (set_pc CFin w)); [|exact Hf'|reflexivity|discriminate|reflexivity].
+  eexists. split; [reflexivity|]. split; [reflexivity|].
+  exists (set_pc CDone (set_pc CFin w)). split; [|reflexivity]. cbn [workers set_wg set_workers].
+  apply (upd_w_find_same c (set_pc CDone) _ _ (keeps_id_set_pc CDone) Hf').
+Qed.
+
 (* ---------------------------------------------------------- non-vacuity *)
 Definition ex_tcp_trace : list label :=
   [StInvoke 0; StAtomic 0; Notify; SCheck; SAcceptOk 1; SSpawn; WCheck 1; WSetDl 1; Req 1; HEnter 1;
@@ -810,4 +841,19 @@ Example ex_accepts_failed_listen :
   /\ accepts TCP [StInvoke 0; StFail 0; SdInvoke 1; SdCtx 1] = inl 3
   /\ accepts TCP [StInvoke 0; StFail 0; StInvoke 2; StReturnErr 2] = inl 3
   /\ accepts TCP [StInvoke 0; Notify; StInvoke 1; StFail 1] = inl 3.
+Proof. vm_compute. repeat split. eexists; reflexivity. Qed.
+
+(* a handler hijacks its connection: no WClose; Shutdown afterwards does not wait for it *)
+Example ex_hijack_run :
+  exists s, run (init TCP) [StInvoke 0; StAtomic 0; Notify; SCheck; SAcceptOk 1; SSpawn; WCheck 1; WSetDl 1; Req 1; HEnter 1;
+                            Reply 1; HExitHj 1; WFinish 1; SCheck; SdInvoke 0; SdAtomic 0; SAcceptErr; SErrCheck; SWaitDone;
+                            SdReturn 0 ResNil; SReturn RNil] = Some s /\
+            In (0, SdDone ResNil) (sds s) /\ serve s = SReturned RNil /\ wg s = 0.
+Proof. match goal with |- exists s, ?r = Some s /\ _ => remember r as rr eqn:E; vm_compute in E; subst rr end. eexists. split; [reflexivity|]. cbn. auto. Qed.
+Example ex_accepts_hijack :
+  (exists n, accepts TCP [StInvoke 0; Notify; SAcceptOk 1; Req 1; HEnter 1; Reply 1; HExitHj 1; SdInvoke 0; SAcceptErr;
+                          SdReturn 0 ResNil; SReturn RNil] = inr (Some n))
+  /\ accepts TCP [StInvoke 0; Notify; SAcceptOk 1; Req 1; HEnter 1; HExitHj 1; WClose 1] = inl 6
+  /\ accepts TCP [StInvoke 0; Notify; SAcceptOk 1; Req 1; HEnter 1; HExitHj 1; Req 1] = inl 6
+  /\ accepts UDP [StInvoke 0; Notify; SPacket 1; HEnter 1; HExitHj 1] = inl 4.
 Proof. vm_compute. repeat split. eexists; reflexivity. Qed.
